@@ -183,3 +183,39 @@ def propagation_matrix(cx, N, sub, t0=0.0):
         tau = ts.data[i] - ta.start
         ref = numpy.dot(S, numpy.dot(numpy.diag(numpy.exp(lam * float(tau))), S1))
         cx.prove_eq("U[%d]" % i, U[:, :, i], ref)
+
+
+@harness("C17", "caller_arrays_untouched",
+         quick=[dict(form="float64"), dict(form="symbolic")], thorough=[dict(form="float64"), dict(form="symbolic"), dict(form="list")],
+         functions=[F_PP + ":PopulationPropagator.propagate", F_PP + ":PopulationPropagator._propagate_short_exp"],
+         bound="N=3, 3 stored times: the initial populations handed to propagate() (a float64 array - the case in which "
+               "a dtype-preserving conversion shares memory, entirely concrete; a symbolic object array; a list) and "
+               "the rate matrix are unchanged afterwards and a second call returns the same trajectory",
+         out="")
+def caller_arrays_untouched(cx, form):
+    from quantarhei import TimeAxis
+    from quantarhei.qm.propagators.poppropagator import PopulationPropagator
+    N = 3
+    with cx.concrete():
+        ta = TimeAxis(0.0, 3, 1.0)
+        Kc = numpy.array([[-0.03, 0.01, 0.0], [0.02, -0.02, 0.04], [0.01, 0.01, -0.04]])
+        pc = numpy.array([0.2, 0.5, 0.3])
+    if form == "symbolic":
+        K = rate_matrix(cx, N)
+        p0 = cx.real_array("p", N)
+        run = lambda: PopulationPropagator(ta, rate_matrix=K).propagate(p0)
+    else:
+        K = Kc
+        p0 = pc if form == "float64" else [0.2, 0.5, 0.3]
+
+        def run():
+            with cx.concrete():
+                return PopulationPropagator(ta, rate_matrix=K).propagate(p0)
+    K0 = numpy.array(K).copy()
+    p_before = numpy.array(p0).copy()
+    first = numpy.array(run()).copy()
+    cx.prove_eq("initial_populations_unchanged", numpy.array(p0), p_before, tol=1e-15)
+    cx.prove_eq("rate_matrix_unchanged", numpy.array(K), K0, tol=1e-15)
+    second = numpy.array(run()).copy()
+    cx.prove_eq("second_call_same_trajectory", second, first, tol=1e-12)
+    cx.prove_eq("trajectory_starts_at_initial_populations", first[0], p_before, tol=1e-12)
